@@ -12,15 +12,16 @@ Clauses of the property and where they are carried:
 * range ends after `scale_range`                         — `scale_range_ends`
 * `revert_scaling` restores after any scaling history    — `revert_restores`
 * multiset of (sample,label) pairs / labels attached     — `shuffle_perm`, `move_boundaries_perm`, `split_labels_perm`,
-  `split_pieces_exact`, `split_without_labels_perm`, `remove_samples_perm_partial`, `concatenate_samples`,
+  `split_pieces_exact`, `split_without_labels_perm`, `remove_samples_perm`, `concatenate_samples`,
   `scaling_keeps_labels`
 * scaling attributes carried along                       — `attrs_carried`
 * out-of-range removal rejected without modification     — `remove_oob_rejects_unchanged`
 * concatenation of different scalings refused            — FALSE of the code: `concat_never_refuses`,
   `concat_refuses_mismatch_counterexample`
 * hypotheses of the above hold in every reachable state   — `wf_preserved` (+ `revert_restores_reachable`)
-* further genuine defects mirrored by the model          — `*_counterexample` at the end (object sharing, 1-dimensional
-  array ranges, repeated removal index, attribute-less empty removal)
+* operations on one object leave the other live objects alone — `pool_inplace_others_unchanged`
+  (the defects fixed by the `fix:` commits — shared factor array, label views, 1-dimensional array ranges, repeated
+  removal index, attribute-less empty removal — are gone from code and model)
 -/
 namespace SparseSpace.C18
 open SparseSpace.DSM
@@ -185,20 +186,27 @@ theorem split_without_labels_perm (s a b : DS) (hl : ∀ p ∈ s.samples, -1 ≤
 example : (splitWithoutLabels (ctor [([1], 1), ([5], -1), ([2], 0)])).map (fun q => (q.1.samples, q.2.samples)) =
     .ok ([([5], -1)], [([1], 1), ([2], 0)]) := by decide +kernel
 
-/-- `remove_samples` (partial: duplicate-free valid indices, and the call returns): removed and kept samples together
-are exactly the pairs of the set; the returned set and the remaining set carry the attributes.  The full clause is
-false of the code for a repeated index and for 1-dimensional sets with array-valued range (counterexamples below). -/
-theorem remove_samples_perm_partial (s s' r : DS) (idx : List Int)
-    (hv : ∀ i ∈ idx, 0 ≤ i ∧ i < (s.samples.length : Int)) (hn : idx.Nodup)
+/-- `remove_samples`: for valid indices (in any order, repetitions allowed — they are dropped) a returning call
+splits the pairs of the set into removed and kept ones; the returned set and the remaining set carry the attributes
+(also when no index is given). -/
+theorem remove_samples_perm (s s' r : DS) (idx : List Int)
+    (hv : ∀ i ∈ idx, 0 ≤ i ∧ i < (s.samples.length : Int))
     (h : removeSamples s idx = (s', .ok r)) :
-    (r.samples ++ s'.samples).Perm s.samples ∧ (idx ≠ [] → attrs r = attrs s ∧ attrs s' = attrs s) := by
-  refine ⟨removeSamples_perm hv hn h, fun hne => ?_⟩
-  obtain ⟨h1, h2, _⟩ := removeSamples_attrs hne h
-  exact ⟨h1, h2⟩
+    (r.samples ++ s'.samples).Perm s.samples ∧ attrs r = attrs s ∧ attrs s' = attrs s := by
+  obtain ⟨h1, h2, _⟩ := removeSamples_attrs h
+  exact ⟨removeSamples_perm hv h, h1, h2⟩
 
 example : (fun q : DS × Except Err DS => (q.1.samples, q.2.map (·.samples)))
-    (removeSamples (ctor [([1, 1], 1), ([5, 2], -1), ([2, 3], 0)]) [2, 0]) =
+    (removeSamples (ctor [([1, 1], 1), ([5, 2], -1), ([2, 3], 0)]) [2, 0, 2]) =
     ([([5, 2], -1)], .ok [([2, 3], 0), ([1, 1], 1)]) := by decide +kernel
+
+/-- one-dimensional data scaled by `shift_value` (array-valued range with one component): removal of two samples and
+concatenation of the halves work -/
+example :
+    let s := (shiftValue (ctor [([0], 0), ([1], 0), ([2], 1), ([3], 1)]) (.scalar 1) false).1
+    (removeSamples s [0, 2]).2.map (·.samples) = .ok [([1], 0), ([3], 1)] ∧
+    (removeSamples s [0, 2]).1.samples = [([2], 0), ([4], 1)] ∧
+    (removeSamples s []).2.map (·.scaled) = .ok true := by decide +kernel
 
 /-- **Out-of-range removal.**  If some index is negative or `≥` the number of samples, `remove_samples` raises and
 the data set is exactly what it was (`== length` slips through the bound check of the code but is rejected by the
@@ -274,7 +282,7 @@ example : (match splitPieces (shuffle (scaleRange (ctor [([0], 0), ([2], 1), ([4
 /-- **The defect, in general.**  `concatenate` compares `self` with the result that already carries `self`'s own
 attributes.  Hence for operands of equal dimension (and equal array shape kind), whatever the scaling state of the
 other operand, the concatenation is accepted whenever `self` is intact (`AttrOK`: a scaled set has its original
-min/max; `RangeOK`: an array-valued range has at least two components). -/
+min/max; `RangeOK`: a scaled set has a range entry). -/
 theorem concat_never_refuses (a b : DS) (hd : a.dim = b.dim) (hf : a.flat = b.flat) (ha : AttrOK a) (hr : RangeOK a) :
     ∃ c, concatenateR a b = .ok (.fresh c) ∧ attrs c = attrs a ∧ c.samples = a.samples ++ b.samples := by
   obtain ⟨c, hc⟩ := concatenateR_never_refuses hd hf ha hr
@@ -285,11 +293,7 @@ example :
     let a := (scaleRange (ctor [([0, 1], 0), ([2, 5], 1)]) 0 1 false).1
     let b := ctor [([7, 7], 0)]
     a.dim = b.dim ∧ a.flat = b.flat ∧ AttrOK a ∧ RangeOK a ∧ sameScaling a b = .ok false := by
-  refine ⟨by decide +kernel, by decide +kernel, fun _ => by decide +kernel, fun _ => ?_, by decide +kernel⟩
-  show (match (scaleRange (ctor [([0, 1], 0), ([2, 5], 1)]) 0 1 false).1.range with
-    | some (.pair _ _) => True | some (.arrs m x) => 2 ≤ m.length ∧ 2 ≤ x.length | none => False)
-  have : (scaleRange (ctor [([0, 1], 0), ([2, 5], 1)]) 0 1 false).1.range = some (.pair 0 1) := by decide +kernel
-  rw [this]; trivial
+  exact ⟨by decide +kernel, by decide +kernel, fun _ => by decide +kernel, fun _ => by decide +kernel, by decide +kernel⟩
 
 /-- the property clause "concatenation of data sets with different scalings is refused" fails: an unscaled set and
 a set scaled to (0,1) have different scalings (`same_scaling` says so) and are concatenated all the same -/
@@ -304,59 +308,81 @@ theorem concat_refuses_mismatch_counterexample :
   rw [he] at hok
   simp at hok
 
-/-! ## further genuine defects of the unchanged code, mirrored by the model -/
+/-! ## operations on one object do not touch the others -/
 
-/-- repeated index: the sample is returned twice and deleted once — five pairs come out of four -/
-theorem remove_duplicate_index_counterexample :
-    ¬ (∀ (s s' r : DS) (idx : List Int), (∀ i ∈ idx, 0 ≤ i ∧ i < (s.samples.length : Int)) →
-        removeSamples s idx = (s', .ok r) → (r.samples ++ s'.samples).Perm s.samples) := by
-  intro h
-  have := (h (ctor [([0], 0), ([1], 0), ([2], 1), ([3], 1)]) (ctor [([0], 0), ([2], 1), ([3], 1)])
-    (ctor [([1], 0), ([1], 0)]) [1, 1] (by decide) (by decide +kernel)).length_eq
-  simp at this
+/-- every in-place operation (scalings, revert, shuffle, moving boundaries, removing labels) on object `i` of a pool in
+which no two objects view the same label array leaves every other live object exactly as it was — no factor array is
+modified in place any more, and label arrays are private -/
+theorem pool_inplace_others_unchanged (P : Pool) (i j : Nat) (op : IOp) (hij : j ≠ i)
+    (hpriv : ∀ a b (oa ob : Obj), P.get? a = some oa → P.get? b = some ob → a ≠ b → oa.lcell ≠ ob.lcell) :
+    ((P.inplace i op).1.get? j).map (·.ds) = (P.get? j).map (·.ds) := by
+  have hset : ∀ (o : Obj) (n : Nat), (({ (P.setObj i o) with next := n } : Pool).get? j) = P.get? j := by
+    intro o n
+    simp only [Pool.get?, Pool.setObj]
+    rw [List.getElem?_set_ne (Ne.symm hij)]
+  have hset' : ∀ (o : Obj), ((P.setObj i o).get? j) = P.get? j := fun o => hset o (P.setObj i o).next
+  unfold Pool.inplace
+  cases hi : P.get? i with
+  | none => rfl
+  | some o =>
+    cases op with
+    | scaleRange lo hi ov =>
+      simp only
+      split
+      · rw [hset']
+      · split <;> rw [hset]
+    | scaleFactor f ov =>
+      simp only
+      split
+      · rw [hset']
+      · split <;> rw [hset]
+    | shiftValue v ov =>
+      simp only
+      split
+      · rw [hset']
+      · split
+        · rw [hset]
+        · rw [hset']
+    | revert => simp only; rw [hset]
+    | shuffle perm => simp only; rw [hset]
+    | removeLabels idx =>
+      simp only
+      split
+      · rw [hset']
+      · rw [hset]
+    | moveBoundaries order =>
+      simp only [Pool.propagateLabels, Pool.get?, Pool.setObj]
+      rw [List.getElem?_map]
+      cases hj : P.objs[j]? with
+      | none =>
+        have : (P.objs.set i { o with ds := moveBoundaries o.ds order }).zipIdx[j]? = none := by
+          rw [List.getElem?_eq_none_iff] at hj ⊢
+          simpa using hj
+        rw [this]; rfl
+      | some oj =>
+        have hz : (P.objs.set i { o with ds := moveBoundaries o.ds order }).zipIdx[j]? = some (oj, j) := by
+          rw [List.getElem?_zipIdx, List.getElem?_set_ne (Ne.symm hij), hj]; simp
+        rw [hz]
+        have hne : oj.lcell ≠ o.lcell := hpriv j i oj o hj hi hij
+        simp [hij, hne]
 
-/-- 1-dimensional data scaled by `shift_value` (array-valued range with ONE component): `same_scaling` indexes
-component `[1]`; concatenating the two halves of one and the same set raises IndexError, and removing two valid
-samples raises it AFTER the samples have been deleted -/
-theorem dim1_array_range_counterexample :
-    let s := (shiftValue (ctor [([0], 0), ([1], 0), ([2], 1), ([3], 1)]) (.scalar 1) false).1
-    (∃ a b, splitPieces s (1/2) = .ok (a, b) ∧ sameScaling a b = .error .index ∧ concatenate a b = .error .index) ∧
-    (removeSamples s [0, 2]).2 = .error .index ∧ (removeSamples s [0, 2]).1.samples = [([2], 0), ([4], 1)] := by
-  refine ⟨?_, by decide +kernel, by decide +kernel⟩
-  refine ⟨{ samples := [([1], 0), ([2], 0)], dim := 1, flat := false, shuffled := false, scaled := true,
-            range := some (.arrs [1] [4]), factor := some (.scalar 1), omin := some [0], omax := some [3] },
-          { samples := [([3], 1), ([4], 1)], dim := 1, flat := false, shuffled := false, scaled := true,
-            range := some (.arrs [1] [4]), factor := some (.scalar 1), omin := some [0], omax := some [3] }, ?_, ?_, ?_⟩ <;>
-  decide +kernel
-
-/-- `remove_samples([])` on a scaled set returns a set without the scaling attributes -/
-theorem remove_nothing_drops_attrs_counterexample :
-    let s := (scaleRange (ctor [([0], 0), ([1], 0), ([3], 1)]) 0 1 false).1
-    ∃ r, (removeSamples s []).2 = .ok r ∧ r.scaled = false ∧ r.range = none ∧ s.scaled = true := by
-  refine ⟨ctor [], by decide +kernel, by decide +kernel, by decide +kernel, by decide +kernel⟩
-
-/-- object sharing 1: derived sets hold the very `_scaling_factor` array of their parent and `*=` changes it in
-place.  Scale a set to (0,1), split it, revert one half: the factor of the parent has become all ones, and reverting
-the parent does NOT restore its samples although only a split happened in between. -/
-theorem alias_scaling_factor_counterexample :
+/-- non-vacuity, and the two former defects: after scaling, splitting and reverting one half the parent still has its
+factor and reverts to its original samples; moving the boundaries of the parent leaves the parts alone -/
+example :
     let s0 := ctor [([0, 0], 0), ([1, 2], 1), ([2, 4], 0), ([3, 8], 1)]
     let P1 := ((Pool.empty.add s0 none none).inplace 0 (.scaleRange 0 1 false)).1
     let P2 := (P1.splitPieces 0 (1/2)).1
     let P3 := (P2.inplace 1 .revert).1
     let P4 := (P3.inplace 0 .revert).1
-    (P1.get? 0).map (·.ds.factor) = some (some (.vec [1/3, 1/8])) ∧
-    (P3.get? 0).map (·.ds.factor) = some (some (.vec [1, 1])) ∧
+    (P3.get? 0).map (·.ds.factor) = some (some (.vec [1/3, 1/8])) ∧
     (P3.get? 1).map (·.ds.samples) = some [([0, 0], 0), ([1, 2], 1)] ∧
-    (P4.get? 0).map (·.ds.scaled) = some false ∧
-    (P4.get? 0).map (·.ds.samples) ≠ some s0.samples := by decide +kernel
+    (P4.get? 0).map (·.ds.samples) = some s0.samples := by decide +kernel
 
-/-- object sharing 2: the label arrays of `split_pieces` parts are views of the parent's; `move_boundaries_to_front`
-on the parent swaps labels in place, so in the part the labels are detached from their samples -/
-theorem alias_split_labels_counterexample :
+example :
     let s0 := ctor [([5], 0), ([1], 1), ([2], 2), ([0], 3), ([9], 4)]
     let P1 := ((Pool.empty.add s0 none none).splitPieces 0 (3/5)).1
     let P2 := (P1.inplace 0 (.moveBoundaries [3, 4])).1
-    (P1.get? 1).map (·.ds.samples) = some [([5], 0), ([1], 1), ([2], 2)] ∧
-    (P2.get? 1).map (·.ds.samples) = some [([5], 3), ([1], 4), ([2], 2)] := by decide +kernel
+    (P2.get? 1).map (·.ds.samples) = some [([5], 0), ([1], 1), ([2], 2)] ∧
+    (P2.get? 0).map (·.ds.samples) = some [([0], 3), ([9], 4), ([2], 2), ([5], 0), ([1], 1)] := by decide +kernel
 
 end SparseSpace.C18
